@@ -29,47 +29,52 @@ CONSTANT W                 \* ring size of the (scaled) RTP timestamps
 VARIABLES rate,            \* track -> ticks per second (scaled), set by the trace's reset
           cur, acc, known, \* per track: last timestamp, accumulated PTS, seen before
           lead,            \* leading track (0: none yet)
+          refs,            \* <<PTS, arrival time in seconds>> of the leading track's packets so far
           mapRtp, mapT, mapped,    \* writer's association
           perLattice       \* ticks per lattice unit of the NTP track
-tvarsA == <<rate, cur, acc, known, lead, mapRtp, mapT, mapped, perLattice>>
+tvarsA == <<rate, cur, acc, known, lead, refs, mapRtp, mapT, mapped, perLattice>>
 
 Tracks == 1..3
 TInit == /\ rate = [t \in Tracks |-> 1] /\ cur = [t \in Tracks |-> 0] /\ acc = [t \in Tracks |-> 0]
-         /\ known = [t \in Tracks |-> FALSE] /\ lead = 0 /\ mapRtp = 0 /\ mapT = 0 /\ mapped = FALSE
+         /\ known = [t \in Tracks |-> FALSE] /\ lead = 0 /\ refs = {} /\ mapRtp = 0 /\ mapT = 0 /\ mapped = FALSE
          /\ perLattice = 1
 TReset(rates, pl) ==
          /\ rate' = [t \in Tracks |-> rates[t]] /\ cur' = [t \in Tracks |-> 0] /\ acc' = [t \in Tracks |-> 0]
-         /\ known' = [t \in Tracks |-> FALSE] /\ lead' = 0 /\ mapRtp' = 0 /\ mapT' = 0 /\ mapped' = FALSE
+         /\ known' = [t \in Tracks |-> FALSE] /\ lead' = 0 /\ refs' = {} /\ mapRtp' = 0 /\ mapT' = 0 /\ mapped' = FALSE
          /\ perLattice' = pl
 
 \* signed difference b - a in the ring, in (-W/2, W/2]... as the code: int32(b - a)
 SDiff(a, b) == LET d == (b + W - a) % W IN IF d >= W \div 2 THEN d - W ELSE d
 
-First(tr, ts, pts) ==
+First(tr, ts, pts, at) ==
   /\ lead = 0 /\ ~known[tr]
   /\ pts = 0                                       \* the timeline starts at the leading track
-  /\ lead' = tr
+  /\ lead' = tr /\ refs' = {<<0, at>>}
   /\ known' = [known EXCEPT ![tr] = TRUE] /\ cur' = [cur EXCEPT ![tr] = ts] /\ acc' = [acc EXCEPT ![tr] = 0]
   /\ UNCHANGED <<rate, mapRtp, mapT, mapped, perLattice>>
 
 \* the PTS difference between two packets is the sum of the signed differences in between
-Dec(tr, ts, pts) ==
+Dec(tr, ts, pts, at) ==
   /\ known[tr]
   /\ pts = acc[tr] + SDiff(cur[tr], ts)
   /\ cur' = [cur EXCEPT ![tr] = ts] /\ acc' = [acc EXCEPT ![tr] = pts]
+  /\ refs' = IF tr = lead THEN refs \cup {<<pts, at>>} ELSE refs
   /\ UNCHANGED <<rate, known, lead, mapRtp, mapT, mapped, perLattice>>
 
-\* a track that starts later is placed on the leading track's timeline
-Late(tr, ts, pts, el) ==
+\* a track that starts later is placed on the leading track's timeline: its first PTS is the PTS
+\* of SOME packet of the leading track plus the time that has passed since THAT packet arrived
+\* (a PTS and an arrival time that belong together; which packet serves as the reference is open)
+Late(tr, ts, pts, at) ==
   /\ lead # 0 /\ ~known[tr]
-  /\ (acc[lead] * rate[tr]) % rate[lead] = 0       \* (the harness only uses exact ratios)
-  /\ pts = (acc[lead] * rate[tr]) \div rate[lead] + el * rate[tr]
+  /\ \E r \in refs :
+       /\ (r[1] * rate[tr]) % rate[lead] = 0        \* (the harness only uses exact ratios)
+       /\ pts = (r[1] * rate[tr]) \div rate[lead] + (at - r[2]) * rate[tr]
   /\ known' = [known EXCEPT ![tr] = TRUE] /\ cur' = [cur EXCEPT ![tr] = ts] /\ acc' = [acc EXCEPT ![tr] = pts]
-  /\ UNCHANGED <<rate, lead, mapRtp, mapT, mapped, perLattice>>
+  /\ UNCHANGED <<rate, lead, refs, mapRtp, mapT, mapped, perLattice>>
 
 NtpMap(rtp, t) ==
   /\ mapRtp' = rtp /\ mapT' = t /\ mapped' = TRUE
-  /\ UNCHANGED <<rate, cur, acc, known, lead, perLattice>>
+  /\ UNCHANGED <<rate, cur, acc, known, lead, refs, perLattice>>
 
 \* absolute time of a packet = writer's time for its RTP timestamp, to within one tick
 \* plus NTP rounding (remNs is the part below one lattice unit)
